@@ -1,9 +1,10 @@
 (* Extraction of the executable model for the correspondence check.
    Only ExtrOcamlBasic: Z, positive, N, nat stay Coq datatypes. *)
 Require Import ExtrOcamlBasic.
-From X86 Require Addr.Run Paging.EntryRun Machine.Run.
+From X86 Require Addr.Run Paging.EntryRun Machine.Run Tables.Run.
 Extraction Language OCaml.
 Definition run_addr := Addr.Run.run_addr.
 Definition run_pte := Paging.EntryRun.run_pte.
 Definition run_mach := Machine.Run.run_mach.
-Extraction "model.ml" run_addr run_pte run_mach.
+Definition run_tbl := Tables.Run.run_tbl.
+Extraction "model.ml" run_addr run_pte run_mach run_tbl.
